@@ -91,7 +91,7 @@ def gen_calls(tier, seed):
     """-> list of dicts describing rs / sk calls"""
     rng = random.Random(1500 + seed)
     quick = tier == "quick"
-    eps_rs = [1e-1, 1e-2, 1e-3, 1e-4] if quick else [1e-1, 1e-2, 1e-3, 1e-4, 1e-5, 1e-6, 1e-7]
+    eps_rs = [1e-1, 1e-2, 1e-3, 1e-4] if quick else [1e-1, 1e-2, 1e-3, 1e-4, 1e-5, 1e-6, 1e-7, 1e-8]
     grid = angle_grid(tier, rng)
     calls = []
     labels = [0, "a", 3]
@@ -425,4 +425,4 @@ def run(tier, seed):
         "an output outside epsilon is admitted only as the documented budget exhaustion (a larger max_search_trials / max_depth reaches epsilon)",
         "exactness at multiples of pi/4 and the returned global phase are reported as drift, the statement demands epsilon up to a global phase",
         "qp.gridsynth is a Catalyst compiler pass (no Python implementation to call here): not covered",
-        "epsilon range: quick 1e-1..1e-4, thorough 1e-1..1e-7 (below 1.5e-8 float64 cannot represent 1 - eps^2/2: see the report)"])
+        "epsilon range: quick 1e-1..1e-4, thorough 1e-1..1e-8 (the range named by the property)"])
